@@ -492,10 +492,10 @@ def gen_case(rng, n):
     return "lru", [1, m, t0, gen_ops(rng, n, True, rng.choice([2, 3, 5, 9]), t0, 10**6)]
 
 
-def alphabet(lru, with_time):
-    """small-scope alphabet: 3 keys; expirations relative to a clock that starts at 10"""
+def alphabet(lru, with_time, nkeys=3):
+    """small-scope alphabet: nkeys keys; expirations relative to a clock that starts at 10"""
     al = []
-    for k in range(3):
+    for k in range(nkeys):
         al.append(("get", k))
         al.append(("put", k))
         al.append(("flushk", k))
@@ -531,11 +531,29 @@ def concretize(seq, lru):
     return ops
 
 
-def small_scope(lru, cfg, length, with_time=True):
-    al = alphabet(lru, with_time)
-    for seq in itertools.product(al, repeat=length):
-        ops = concretize(seq, lru)
-        yield [1, cfg, 10, ops] if lru else [0, cfg, 10, [], ops]
+def small_scope(lru, cfg, length, with_time=True, nkeys=3, first=None):
+    al = alphabet(lru, with_time, nkeys)
+    heads = [al[first]] if first is not None else al
+    for h in heads:
+        for seq in itertools.product(al, repeat=length - 1):
+            ops = concretize((h,) + seq, lru)
+            yield [1, cfg, 10, ops] if lru else [0, cfg, 10, [], ops]
+
+
+def scope_worker(task):
+    lru, cfg, length, nkeys, first = task
+    n = 0
+    bad = []
+    for case in small_scope(lru, cfg, length, True, nkeys, first):
+        n += 1
+        out = lib.normalize(impl(case))
+        fs = check_history(case, out)
+        if fs and len(bad) < 2:
+            f = dict(fs[0])
+            f["case"] = case
+            f["case_kind"] = "small-scope"
+            bad.append(f)
+    return n, bad
 
 
 def gen_programs(rng, lru, nthreads, nops):
@@ -678,6 +696,13 @@ def check_history(case, out):
         fail("exception " + out.text)
         return F
     ops = case[3] if lru else case[4]
+    if is_concurrent(case):
+        programs = case[-1][1]
+        total = sum(len(p) for p in programs)
+        if len(ops) != total:
+            fail("a call ran without taking the cache lock: %d calls issued, %d lock acquisitions"
+                 % (total, len(ops)), None, sig="unlocked")
+            return F
     ideal = {}         # key -> [vid, exp]: latest stored answer, not flushed, not evicted
     last_use = {}      # key -> step of last put / successful get
     node_hits = {}
@@ -911,23 +936,43 @@ def extra(ctx):
     for p in probs:
         F.append({"kind": "guard:methods_atomic", "what": "a public cache method is not one critical section: " + p, "sig": p})
     # exhaustive small scope, oracle only
+    import multiprocessing
+
+    if ctx.quick:
+        scopes = [(True, 1, 4, 3), (True, 2, 4, 3), (True, 3, 4, 3), (False, 0, 4, 3), (False, 2, 4, 3)]
+    else:
+        scopes = [(True, 1, 5, 3), (True, 2, 5, 3), (True, 3, 5, 3), (False, 0, 5, 3), (False, 2, 5, 3),
+                  (True, 1, 6, 2), (True, 2, 6, 2), (True, 3, 6, 2), (False, 0, 6, 2), (False, 2, 6, 2)]
+    tasks = []
+    for lru, cfg, length, nkeys in scopes:
+        for first in range(len(alphabet(lru, True, nkeys))):
+            tasks.append((lru, cfg, length, nkeys, first))
     n = 0
-    bad = 0
-    scopes = [(True, 1, 4), (True, 2, 4), (True, 3, 4), (False, 0, 4), (False, 2, 4)] if ctx.quick else \
-             [(True, 1, 5), (True, 2, 5), (True, 3, 5), (False, 0, 5), (False, 2, 5)]
-    for lru, cfg, length in scopes:
-        for case in small_scope(lru, cfg, length):
-            n += 1
-            out = lib.normalize(impl(case))
-            fs = check_history(case, out)
-            if fs and bad < 3:
-                bad += 1
-                f = fs[0]
-                f["case"] = case
-                f["case_kind"] = "small-scope"
-                F.append(f)
+    bad = []
+    procs = 4 if ctx.quick else 8
+    with multiprocessing.get_context("fork").Pool(procs) as pool:
+        for k, b in pool.imap_unordered(scope_worker, tasks, chunksize=1):
+            n += k
+            bad += b
+    seen_sig = set()
+    for f in bad:
+        if f["what"] in seen_sig or len(seen_sig) >= 3:
+            continue
+        seen_sig.add(f["what"])
+        small, sf = shrink(f["case"], f["what"])
+        if sf is not None:
+            sf = dict(sf)
+            sf["case"] = small
+            sf["case_kind"] = "small-scope"
+            F.append(sf)
+        else:
+            F.append(f)
     ctx.notes["exhaustive"] = True
-    ctx.notes["exhaustive_scope"] = f"all op sequences of length {scopes[0][2]} (every prefix observed) over {len(alphabet(True, True))} (LRU) / {len(alphabet(False, True))} (Cache) symbols: get/put/flush on 3 keys, flush(), set_max_size 1|2, clock+2; LRU max_size 1..3, Cache interval 0|2: {n} histories"
+    ctx.notes["exhaustive_scope"] = (
+        "every op sequence (every prefix observed, property oracle after every step) over get/put/flush(k) on K keys, "
+        "flush(), set_max_size 1|2 (LRU), clock+2; LRUCache max_size 1..3, Cache interval 0|2; "
+        + ("length 4 with K=3" if ctx.quick else "length 5 with K=3 and length 6 with K=2")
+        + f": {n} histories")
     ctx.notes["extra_evaluations"] = n
     ctx.notes["extra_nontrivial"] = n
     return F
